@@ -144,7 +144,7 @@ func fieldKey(base types.Type, idx int) string {
 	if !ok {
 		return ""
 	}
-	return QualNamedOf(base) + "." + st.Field(idx).Name()
+	return QualNamedOf(base) + "." + FieldName(st, idx)
 }
 
 // closureFn resolves a called value to a function literal of the analysed set.
